@@ -494,9 +494,11 @@ pub fn finish(
             if !seen_kinds.insert(v.kind.clone()) || replay_paths.len() >= 12 {
                 continue;
             }
-            // re-execute twice from the recorded case
-            let r1 = guarded(|| replayer(&v.case)).unwrap_or(None);
-            let r2 = guarded(|| replayer(&v.case)).unwrap_or(None);
+            // re-execute from the recorded case: twice, and both runs must agree. If they do not (or
+            // the violation does not show), the one nondeterminism the library has - the seeding of the
+            // hash map inside Checksum - may be involved: retry, and report the violation if it shows
+            // again at least once (the replay file says how often); only a violation that never
+            // reproduces is a machinery error.
             let digest = |r: &Option<Vec<Violation>>| {
                 r.as_ref().map(|vs| {
                     let mut k: Vec<String> = vs.iter().filter(|x| x.prop == rep.prop).map(|x| format!("{}|{}", x.kind, x.detail)).collect();
@@ -504,16 +506,25 @@ pub fn finish(
                     k
                 })
             };
+            let r1 = guarded(|| replayer(&v.case)).unwrap_or(None);
+            let r2 = guarded(|| replayer(&v.case)).unwrap_or(None);
             let (d1, d2) = (digest(&r1), digest(&r2));
-            if d1 != d2 {
-                machinery_error = Some(format!("replay of {} diverged between two runs", v.case));
-                continue;
-            }
-            if let Some(d) = &d1 {
-                if d.is_empty() {
-                    machinery_error = Some(format!("violation did not reproduce on replay: {} ({})", v.case, v.detail));
+            let mut reproduced = String::from("2/2");
+            let stable = d1 == d2 && d1.as_ref().map(|d| !d.is_empty()).unwrap_or(true);
+            if !stable {
+                let mut hits = 0;
+                let tries = 30;
+                for _ in 0..tries {
+                    let r = guarded(|| replayer(&v.case)).unwrap_or(None);
+                    if digest(&r).map(|d| !d.is_empty()).unwrap_or(false) {
+                        hits += 1;
+                    }
+                }
+                if hits == 0 {
+                    machinery_error = Some(format!("violation did not reproduce in {} replays: {} ({})", tries + 2, v.case, v.detail));
                     continue;
                 }
+                reproduced = format!("{hits}/{tries} (nondeterministic: the outcome depends on the library's hash-map seeding)");
             }
             let path = format!("{root}/replays/{}-{}.json", rep.prop, replay_paths.len());
             let body = json!({
@@ -522,6 +533,7 @@ pub fn finish(
                 "case": v.case,
                 "detail": v.detail,
                 "replayed_twice": d1.is_some(),
+                "reproduced": reproduced,
             });
             std::fs::write(&path, serde_json::to_string_pretty(&body).unwrap()).expect("cannot write replay");
             replay_paths.push(path);
